@@ -74,9 +74,11 @@ var vSqlAttacks = [...]string{
 	"~{into}~{outfile}~'?'", "~{into}~{dumpfile}~'?'", "~{union}~{select}~#~{into}~{outfile}~'?'", "~{procedure}~{analyse}()",
 	// 44-47 misc canonical
 	"~{or}~#~{in}~(#)", "~{or}~#~{between}~#~{and}~#", "~{having}~#=#", "~{order}~{by}~#",
+	// 48-51 T-SQL control flow after a stacked statement
+	";~{if}~(#=#)~{select}~#", ";{if}(#=#)~{waitfor}~{delay}~'#:#:#'", ";~{if}~#=#~{drop}~{table}~?", "~{union}~{select}~#,#~{from}~?~{where}~#=#",
 }
 
-const vNumSqlAttacks = 48
+const vNumSqlAttacks = 52
 
 // HSqlAttack (C03): context x attack x separator shape x tail; every instance must be reported as SQLi.
 func HSqlAttack(ctx int, atk int, sep int, tail int) {
@@ -89,10 +91,34 @@ func HSqlAttack(ctx int, atk int, sep int, tail int) {
 	vCover("checked")
 }
 
+// near-benign inputs that reach the whitelist rules (token-count dependent exemptions, quote-context readings,
+// MySQL re-parse): the interesting region for "each reading is independent of the readings tried before it".
+var vSqlNear = [...]string{
+	"?'~{and}~?", "#'~{or}~#", "?\"~{and}~#", "#~{union}", "#'~{union}", "?~--_?", "#~{and}~#", "?'~{and}~?~--", "#'~&&~#", "?'~||~?",
+	"#~--", "#--", "#~#", "?'~--", "#'~#~?", "#\"~{or}~'?'", "?'~{and}~@?", "#'~{and}~#~#", "#'--", "?'#", "#;~?", "{select}~?~{from}~?",
+	"?'~{or}~?'", "#'~{and}~'#", "?\"~{or}~\"?", "#'~{xor}~#", "#~{or}~#", "?~{and}~#<#", "#'~{and}~#<#", "'~{or}~'", "\"~{and}~\"", "#'~{or}~#~--_?#",
+	"#'\"~{and}~#", "?'?\"~{or}~#=#~--", "?'?\"~{union}~{select}~#,#~--", "\"?'~{or}~#=#", "'~&&~?", "?'~{and}~-?", "?\"~{or}~~?", "'~{or}~?",
+	"?~?~--_sp_password", "?~?~?~--sp_password", "#~?~/*sp_password*/", "?'~?~--_sp_password", "?~--_{sp_password}", "#~?~#~?~#~--_sp_password",
+}
+
+const vNumSqlNear = 46
+
+func HSqlNearRel(i int, sep int) {
+	s := vExpand(vSqlNear[i], sep)
+	vRelations(s)
+	vCover("checked")
+}
+
 // HSqlAttackRel (C08 / C12 / C16 on long inputs): on the same inputs, the verdict/fingerprint relation, the cascade
 // on fresh state, and the token-stream shape.
 func HSqlAttackRel(ctx int, atk int, sep int, tail int) {
 	s := vExpand(vSqlCtx[ctx]+vSqlAttacks[atk]+vSqlTails[tail], sep)
+	vRelations(s)
+	vCover("checked")
+}
+
+// vRelations: the verdict/fingerprint relation (C08), the cascade on fresh state (C12) and the token-stream shape (C16) on s.
+func vRelations(s string) {
 	n := len(s)
 	b, f := IsSQLi(s)
 	// C08
@@ -154,7 +180,6 @@ func HSqlAttackRel(ctx int, atk int, sep int, tail int) {
 		prevEnd = st.current.pos + st.current.len
 	}
 	vAssert(st.pos == n, "scan ends exactly at end of input")
-	vCover("checked")
 }
 
 // HSqlCaseT (C10): two independent case assignments of the same attack text give the same verdict and fingerprint.
@@ -262,5 +287,27 @@ func HBlacklistN1(l int) {
 	st := new(sqliState)
 	st.fingerprint = string(fp)
 	vAssert(!st.blacklist(), "no {n,1} fingerprint is blacklisted")
+	vCover("checked")
+}
+
+// HVirtualQuoteT (C12): on template text s, reading s inside quote q gives the same fingerprint as reading q+s as-is
+// (same comment dialect), and the same verdict unless the fingerprint is sos / s&s.
+func HVirtualQuoteT(i int, sep int, q int, mysql int) {
+	s := vExpand(vSqlNear[i], sep)
+	qb := byte('\'')
+	qf := sqliFlagQuoteSingle
+	if q == 1 {
+		qb, qf = '"', sqliFlagQuoteDouble
+	}
+	d := sqliFlagSQLAnsi
+	if mysql == 1 {
+		d = sqliFlagSQLMysql
+	}
+	f1, ok1, _ := vCtx(s, qf|d)
+	f2, ok2, _ := vCtx(vB(qb)+s, sqliFlagQuoteNone|d)
+	vAssert(f1 == f2, "fingerprint inside quote equals fingerprint of quote+input as-is")
+	if f1 != "sos" && f1 != "s&s" {
+		vAssert(ok1 == ok2, "verdict inside quote equals verdict of quote+input as-is")
+	}
 	vCover("checked")
 }
